@@ -69,6 +69,10 @@ func (l *RateLimiter) Acquire(ctx context.Context, tokens int) (err error) {
 	for {
 		now = time.Now().UnixNano()
 		last = atomic.LoadInt64(&l.next)
+		if l.timeout > 0 && last > now && time.Duration(last-now) > l.timeout {
+			// a rejected request takes no permits
+			return core.ErrTimeout
+		}
 		permits := float64(now-last)/l.interval - float64(tokens)
 		if permits > l.maxPermits {
 			permits = l.maxPermits
@@ -82,9 +86,6 @@ func (l *RateLimiter) Acquire(ctx context.Context, tokens int) (err error) {
 		return
 	}
 	delay := time.Duration(last - now)
-	if l.timeout > 0 && delay > l.timeout {
-		return core.ErrTimeout
-	}
 	ctx, cancel := context.WithTimeout(ctx, delay)
 	<-ctx.Done()
 	cancel()
